@@ -237,6 +237,29 @@ pub fn profile(name: &str) -> Profile {
             hygiene: false,
             ..base
         },
+        // C07: handles kept across the removal of their stream while the freed slot is reused by
+        // storages and streams; other streams are read back often
+        "stale" => Profile {
+            name: "stale",
+            steps: (30, 70),
+            w_create_storage: 12,
+            w_create_stream: 12,
+            w_remove: 18,
+            w_remove_all: 0,
+            w_meta: 1,
+            w_query: 3,
+            w_handle_open: 18,
+            w_handle_io: 34,
+            w_cat: 10,
+            w_reopen: 0,
+            w_refuse: 0,
+            unicode: 0,
+            bad_names: 0,
+            small_bias: true,
+            flat: true,
+            hygiene: false,
+            ..base
+        },
         "treebig" => Profile {
             name: "treebig",
             steps: (60, 120),
